@@ -624,34 +624,33 @@ theorem Inv.get_unknown {s : Ldb} {h : List Ver} (hi : Inv s h) {id : Id} (hz : 
       rw [← hi.inv0.front] at this; exact this
     simp [Ldb.get, hz, hne, hidx]
 
-/-- the entries an ordered scan of the view at version `v` must list: the content of `v` under the prefix; for a
-    version below the frontier the empty-valued keys are missing (known finding F3b) -/
-def scanSpec (h : List Ver) (v : Ver) (p : Bytes) : Bytes → Bytes → Prop :=
-  fun k val => isPrefix p k = true ∧ v.store k = some val ∧ (v.id = topId h ∨ val ≠ [])
+/-- the entries an ordered scan of the view at version `v` must list: exactly the content of `v` under the prefix
+    (whether `v` is the frontier or below it) -/
+def scanSpec (v : Ver) (p : Bytes) : Bytes → Bytes → Prop :=
+  fun k val => isPrefix p k = true ∧ v.store k = some val
 
 /-- lookup and ordered scan of the view at a version on the chain -/
 theorem Inv.view_scan {s : Ldb} {h : List Ver} (hi : Inv s h) {v : Ver} (hv : v ∈ h) :
     ∃ r, s.get v.id = some r ∧ r.get = v.store ∧
-      ∀ p, OrderedEntries (edEntries (r.rawScan p)) (scanSpec h v p) := by
+      ∀ p, OrderedEntries (edEntries (r.rawScan p)) (scanSpec v p) := by
   obtain ⟨r, hg, hget, hshape⟩ := hi.view hv
   refine ⟨r, hg, hget, ?_⟩
   intro p
-  have hfid := hi.inv0.frontierId
-  rcases hshape with ⟨rfl, hvf⟩ | ⟨hne, rb, rfl, hrb⟩
+  rcases hshape with ⟨rfl, _⟩ | ⟨_, rb, rfl, hrb⟩
   · have h1 : OrderedEntries (edEntries ((Root.front s.frontier).rawScan p)) _ :=
       front_scan_entries hi.inv0.sorted p
     refine ⟨h1.1, ?_⟩
     intro k val
     refine (h1.2 k val).trans ?_
     rw [← Root.get_front, hget]
-    simp only [scanSpec, ← hfid, hvf, true_or, and_true]
+    exact Iff.rfl
   · have h1 : OrderedEntries (edEntries ((Root.hist rb s.frontier).rawScan p)) _ :=
       hist_scan_entries hrb hi.inv0.sorted p
     refine ⟨h1.1, ?_⟩
     intro k val
     refine (h1.2 k val).trans ?_
     rw [← Root.get_hist, hget]
-    simp only [scanSpec, ← hfid, hne, false_or]
+    exact Iff.rfl
 
 /-- observational equality of two manager states: for every identifier `Get` answers alike (refused / a view),
     and the two views agree on every lookup and on every ordered prefix scan -/
